@@ -79,19 +79,63 @@ def _untraced_outermost(value, ctx):
     return _orig_ppv(value, ctx)
 
 
-def sdocs(value, w, rw, native, indent=4, depth=None, max_seq_len=1000,
-          sort_dict_keys=False, traced_printers=False):
+_orig_ctx = PP.PrettyContext
+
+
+def _ctx_with_real_set(*a, **kw):
+    """python_to_sdocs evaluates ``visited=set()`` under the tracer, which
+    yields CrossHair's lazy shell set (a chain that overflows the recursion
+    limit after ~1000 add/remove operations).  When the printers run untraced
+    the context gets a real set instead."""
+    with NoTracing():
+        if 'visited' in kw:
+            kw['visited'] = set()
+        return _orig_ctx(*a, **kw)
+
+
+def _bind(native, traced_printers):
     if native or traced_printers:
         PP.pretty_python_value = _orig_ppv
+        PP.PrettyContext = _orig_ctx
     else:
         PP.pretty_python_value = _untraced_outermost
+        PP.PrettyContext = _ctx_with_real_set
+
+
+def _unbind():
+    PP.pretty_python_value = _orig_ppv
+    PP.PrettyContext = _orig_ctx
+
+
+def sdocs(value, w, rw, native, indent=4, depth=None, max_seq_len=1000,
+          sort_dict_keys=False, traced_printers=False):
+    _bind(native, traced_printers)
     try:
         return list(PP.python_to_sdocs(
             value, indent=indent, width=w, depth=depth,
             ribbon_width=stubs.ribbon_arg(rw, w, native),
             max_seq_len=max_seq_len, sort_dict_keys=sort_dict_keys))
     finally:
-        PP.pretty_python_value = _orig_ppv
+        _unbind()
+
+
+def ptext(value, w, rw, indent=4, depth=None, max_seq_len=1000,
+          sort_dict_keys=False, traced_printers=False):
+    """Text of the value through the *public* entry point: pprint into a
+    pure-Python sink (pformat's StringIO is C code).  Covers the configuration
+    merge and the default renderer as well; every fragment is concrete in the
+    families that use this (concrete value and indent), the layout
+    configuration is symbolic."""
+    _bind(False, traced_printers)
+    try:
+        sink = stubs.Sink()
+        PKG.pprint(value, stream=sink, indent=indent, width=w, depth=depth,
+                   ribbon_width=stubs.RW(rw), max_seq_len=max_seq_len,
+                   sort_dict_keys=sort_dict_keys, end='')
+        with NoTracing():
+            return ''.join(sink.parts)
+    finally:
+        _unbind()
 
 
 def stream_text(stream, names=None):
